@@ -280,11 +280,11 @@ func (r *Report) finish(workdir string) int {
 			if prop != "" && p != prop {
 				continue
 			}
-			path := writeReplay(replayDir, p, o)
 			suffix := ""
 			if o.fail == nil || !o.fail.replayed() {
 				suffix = " no-failing-input-found"
 			}
+			path := writeReplay(replayDir, p, o)
 			fmt.Printf("VIOLATION property=%s replay=%s%s\n", p, path, suffix)
 			fmt.Printf("  obligation %s [%s] %s: %s (%s)\n", o.Name, o.Status, o.Src, o.Info, solverOf(o))
 			violations++
@@ -363,7 +363,20 @@ func solverOf(o *Oblig) string {
 	return o.Solver
 }
 
-func (cr *CheckResult) replayed() bool { return false }
+// replayed: the solver's counterexample was run against the real code of the
+// tree under check and reproduced the violation (see replay.go).
+func (cr *CheckResult) replayed() bool {
+	if cr == nil {
+		return false
+	}
+	if !cr.replayDone {
+		cr.replayDone = true
+		if os.Getenv("GOVC_NO_REPLAY") == "" {
+			cr.replayOK, cr.replayRec = tryReplay(cr, *flagRepo)
+		}
+	}
+	return cr.replayOK
+}
 
 func (r *Report) pathsTotal() []int {
 	var n []int
@@ -425,6 +438,12 @@ func writeReplay(dir, prop string, o *Oblig) string {
 		}
 	}
 	rec["replayed_on_real_code"] = false
+	if o.fail != nil && o.fail.replayDone {
+		rec["replayed_on_real_code"] = o.fail.replayOK
+		for k, v := range o.fail.replayRec {
+			rec[k] = v
+		}
+	}
 	b, _ := json.MarshalIndent(rec, "", " ")
 	os.WriteFile(path, b, 0644)
 	return path
